@@ -109,6 +109,50 @@ def main():
             hist["model_runs"] += 1
             if mt != "Ok " + hx(ref):
                 disagreements.append({"what": "%s options %s" % (label, args), "model": mt[:100], "capture": cap.hex(), "keylog": keylog})
+    # what a QUIC capture with retransmitted handshake datagrams leaves behind (CRYPTO frames that arrive twice are parked): then another
+    # QUIC capture, whose server selects a suite the client did not offer first, in the same process -- against a fresh interpreter
+    for i in range(2 if ck.tier == "quick" else 20):
+        qa = pool.quic_conn(rng, hist, idx=1, napp=2)
+        pa = list(qa.packets)
+        dup = []
+        for j, p_ in enumerate(pa):
+            dup.append(p_)
+            if j < 4:
+                dup.append(dict(p_, ts=p_["ts"] + 1))          # the first datagrams of the handshake, captured twice
+        qb = pool.quic_conn(rng, hist, idx=2, napp=3, offered=rng.choice(["last", "middle"]))
+        b = pool.build(rng, [qb], hist)
+        cap_path, log_path = os.path.join(tmp, "in.pcapng"), os.path.join(tmp, "keys.log")
+        with open(cap_path, "wb") as f:
+            f.write(b.capture)
+        with open(log_path, "w", newline="") as f:
+            f.write(b.keylog)
+        args = ["-a"] if i % 2 else []
+        ref = fresh_process(cap_path, log_path, args, 0, tmp, {})
+        impl.run(capgen.to_pcapng(sorted(dup, key=lambda q: q["ts"])), qa.s.keylog, args)
+        st, o = impl.run(b.capture, b.keylog, args)
+        hist["variation=in-process-after-retransmitted-quic-handshake"] += 1
+        ck.case(("c18-quic-dup", i))
+        if (o if st == "ok" else st) != ref:
+            fails.append({"what": "generated ['quic'], options %s: in-process, after a QUIC capture whose first handshake datagrams were captured twice, gives a different export" % args,
+                          "capture": b.capture.hex(), "keylog": b.keylog, "args": args, "earlier_capture": capgen.to_pcapng(sorted(dup, key=lambda q: q["ts"])).hex(), "earlier_keylog": qa.s.keylog})
+    # competing key-log lines inside a Decryption Secrets Block (no -s): whatever the export is, it must not depend on the hash seed
+    from ref import synth
+    for i in range(2 if ck.tier == "quick" else 20):
+        cn = pool.tls_conn(rng, table, hist, idx=1, nrec=3, reclen=40)
+        case = pool.build(rng, [cn], hist)
+        lines = [l for l in case.keylog.split("\n") if l]
+        twin = lambda l: " ".join(l.split(" ")[:2] + [l.split(" ")[2][:rng.choice([8, 32, 60])]])        # a truncated copy (a writer interrupted mid-line)
+        text = "".join((twin(l) + "\n" + l + "\n") if rng.randrange(2) else (l + "\n" + twin(l) + "\n") for l in lines)
+        capd = synth.pcapng([(p_["ts"], p_["frame"]) for p_ in case.packets], dsbs_before=[text])
+        cap_path = os.path.join(tmp, "in.pcapng")
+        with open(cap_path, "wb") as f:
+            f.write(capd)
+        outs = [fresh_process(cap_path, None, [], sd, tmp, {}) for sd in (0, 1, 2, 3, 5, 7, 11, 12345)]
+        hist["variation=hash-seed-with-twins-in-a-block"] += 1
+        ck.case(("c18-dsb-twins", i))
+        if any(o != outs[0] for o in outs):
+            fails.append({"what": "generated ['tls'], secrets in a block with truncated twins of every line: the export depends on the hash seed (%s bytes)" % sorted({len(o) if isinstance(o, bytes) else o for o in outs}),
+                          "capture": capd.hex(), "keylog": None, "args": []})
     # what an unfinished connection leaves behind: a capture that stops in the middle of a (fragmented) handshake, at every early cut
     # point, is processed first; then another capture in the same process -- its export must be that of a fresh interpreter
     for i in range(2 if ck.tier == "quick" else 20):
